@@ -28,6 +28,11 @@ def is_unsigned(t):
     return t.startswith('unsigned') or t in ('bool',)
 
 
+def g_is_implicit_copy(P, n):
+    """assignment operator without a body in the analysed program (implicit member-wise copy)"""
+    return (n.get('cn') or '').endswith('::operator=') and P.fns.get(n.get('callee')) is None and not (n.get('cn') or '').startswith('std::')
+
+
 class State(object):
     __slots__ = ('env', 'cons', 'val', 'notes')
 
@@ -57,6 +62,7 @@ class Engine(object):
         self.assume = assume or {}          # bname -> callable(engine, fn, state) adding entry constraints
         self.opaque_calls = set(opaque_calls)
         self.unsupported = []
+        self.range_sinks = {}       # callee bname -> (pointer arg index, length arg index): [p, p+n) must lie inside p's object
 
     # ---------------------------------------------------------------- atoms
     def newatom(self, hint, t=None, st=None):
@@ -214,6 +220,9 @@ class Engine(object):
                         return st.env[key]
                     self._first_use(st, key, t)
                     return st.env[key]
+        if k == 'CXXOperatorCallExpr' and n.get('op') in ('+', '-') and len(n['ch']) == 3:
+            l, r = self.value(fn, st, n['ch'][1]), self.value(fn, st, n['ch'][2])
+            return l + r if n['op'] == '+' else l - r
         if k == 'ConditionalOperator':
             pass
         if k == 'ArraySubscriptExpr' or (k == 'CXXOperatorCallExpr' and n.get('op') == '[]'):
@@ -253,6 +262,9 @@ class Engine(object):
             if implies(st.cons, ge(v - lo)) and implies(st.cons, ge(hi - v)):
                 return v
             a = Lin.atom(self.newatom('narrow', tto, st))
+            if implies(st.cons, ge(v)):
+                st.cons.append(ge(v - a))       # truncation / wrap of a non-negative value never increases it
+                st.cons.append(ge(a - lo)) if TYPE_MIN.get(tto, 0) >= 0 else None
             return a
         return v
 
@@ -450,9 +462,24 @@ class Engine(object):
                 if o is not None and not m.get('ref', '').endswith(' const') and q.short_of(n.get('cn')) not in q.NONMUTATING:
                     a = self.path_atom(fn, o)
                     if a:
-                        prefixes.add(a)
-                        if a == 'this':
-                            prefixes.add('this.')
+                        g = self.P.fns.get(n.get('callee'))
+                        if a == 'this' and g is not None and g is not fn and getattr(self, '_wdepth', 0) < 3:
+                            # same object: the callee's own write set (its `this` is ours)
+                            self._wdepth = getattr(self, '_wdepth', 0) + 1
+                            try:
+                                for j in g.all_nodes():
+                                    a2, p2 = set(), set()
+                                    self._written(g, j, a2, p2)
+                                    atoms |= set(x for x in a2 if x.startswith('this'))
+                                    prefixes |= set(x for x in p2 if x.startswith('this'))
+                            finally:
+                                self._wdepth -= 1
+                        elif a == 'this' and (n.get('cn') or '').startswith(('std::', 'booster::')):
+                            pass       # library base-class helpers (shared_from_this ...) do not touch the derived object's fields
+                        else:
+                            prefixes.add(a)
+                            if a == 'this':
+                                prefixes.add('this.')
             ov = n.get('ov') or []
             args = fn.args(i)
             if k == 'CXXOperatorCallExpr' and n.get('rec'):
@@ -727,6 +754,44 @@ class Engine(object):
                 if b:
                     self.havoc(st, atoms=[b[1:]], prefixes=[b[1:]])
             return None
+        if k == 'CXXOperatorCallExpr' and n.get('op') in ('+', '-') and len(n['ch']) == 3:
+            l, r = self.value(fn, st, n['ch'][1]), self.value(fn, st, n['ch'][2])
+            if self._has_base(l) or self._has_base(r):
+                st.val[i] = l + r if n['op'] == '+' else l - r
+                return None
+        if bcn in ('std::max', 'std::min') and len(args) == 2:
+            a0, a1 = self.value(fn, st, args[0]), self.value(fn, st, args[1])
+            m = Lin.atom(self.newatom(sh, t, st))
+            if bcn == 'std::max':
+                st.cons += [ge(m - a0), ge(m - a1)]
+            else:
+                st.cons += [ge(a0 - m), ge(a1 - m)]
+            st.val[i] = m
+            return None
+        if bcn == 'std::find' and len(args) == 3:
+            first, last = self.value(fn, st, args[0]), self.value(fn, st, args[1])
+            d = Lin.atom(self.newatom('found'))
+            st.cons += [ge(d), ge(last - first - d)]
+            st.val[i] = first + d
+            return None
+        if k == 'CXXOperatorCallExpr' and n.get('op') == '=' and len(n['ch']) == 3 and g_is_implicit_copy(self.P, n):
+            dst, src = self.path_atom(fn, n['ch'][1]), self.path_atom(fn, n['ch'][2])
+            if dst and src:
+                for kx in [x for x in st.env if x.startswith(dst + '.')]:
+                    del st.env[kx]
+                for kx, vx in list(st.env.items()):
+                    if kx.startswith(src + '.'):
+                        st.env[dst + kx[len(src):]] = vx
+                return None
+        if bcn in self.range_sinks:
+            pi, li = self.range_sinks[bcn]
+            ra = [a for a in args if fn.N(a)['k'] != 'CXXDefaultArgExpr']
+            if len(ra) > max(pi, li):
+                pv = self.value(fn, st, ra[pi])
+                self.oblige_range(fn, st, i, sh + '(p,n)', pv, self.value(fn, st, ra[li]), '%s(p,n)' % sh, chain)
+                if t and t != 'void':
+                    st.val[i] = Lin.atom(self.newatom('call:' + sh, t, st))
+                return None
         if bcn == 'memset' and len(args) == 3:
             pv = self.value(fn, st, args[0])
             self.oblige_range(fn, st, i, 'memset', pv, self.value(fn, st, args[2]), 'memset', chain)
@@ -788,6 +853,13 @@ class Engine(object):
                     self.oblige(fn, st, i, 'index', '%s[%s]: index < size=%s' % (oa.split('::')[-1], idx, size), ge(size - idx - Lin.const(1)), chain)
                     self.oblige(fn, st, i, 'index-lo', '%s[%s]: index >= 0' % (oa.split('::')[-1], idx), ge(idx), chain)
             return None
+        if k in ('CXXConstructExpr', 'CXXTemporaryObjectExpr') and len([a for a in args if fn.N(a)['k'] != 'CXXDefaultArgExpr']) == 1:
+            ov = n.get('ov') or ['']
+            rec = n.get('rec') or ''
+            if rec and rec in ov[0]:            # copy / move construction keeps the (pointer-like) value
+                v = self.value(fn, st, args[0])
+                st.val[i] = v
+                return None
         # ---- inlining
         callee = n.get('callee')
         g = self.P.fns.get(callee)
